@@ -351,6 +351,31 @@ partial def loop (h : IO.FS.Stream) (s : St) : IO Unit := do
       if !(sg.contains "stop-drop" || sg.contains "stopped-backlog") then
         printVios (if s.diverged then s.sc ++ "~" else s.sc) s.line [{ prop := "C03", clause := "hang", sigs := sg, detail := s!"external await of event {e} never returns" }]
       loop h s
+    | ["oParent", pp, e, par] =>
+      -- C09: the parent the real event carries after the dispatch, against the handler attribution of the model
+      let real := optNat par
+      let mdl := (s.w.ev e.toNat!).parent
+      if real != mdl then
+        IO.println s!"OBS {s.sc} {s.line} event {e} parent after dispatch model={mdl} real={real}"
+        printVios (s.sc ++ "~") s.line
+          [⟨"C09", "wrongParent", [], s!"event {e} dispatched by {pp}: its parent is {real}, the dispatching handler's event gives {mdl}"⟩]
+        loop h { s with diverged := true, w := s.w.modEv e.toNat! fun E => { E with parent := real } }
+      else loop h s
+    | ["oChildCount", pp, e, n] =>
+      -- C09: the event occurs exactly as often among the children of the dispatching handler's own result as the model says
+      match parseProc pp with
+      | .inst i =>
+        let I := s.w.inst i
+        let mdl := match (s.w.ev I.ev).getRes? I.bus I.hid with
+          | some r => (r.children.filter (· == e.toNat!)).length
+          | none => 0
+        if mdl != n.toNat! then
+          IO.println s!"OBS {s.sc} {s.line} event {e} among children of instance {i}'s result model={mdl} real={n}"
+          printVios (s.sc ++ "~") s.line
+            [⟨"C09", "childCount", [], s!"event {e} dispatched by instance {i}: occurs {n} times among the children of that handler's result, expected {mdl}"⟩]
+          loop h { s with diverged := true }
+        else loop h s
+      | _ => loop h s
     | ["oAccepted", b, e, q] =>
       -- C14: a dispatch that returned normally has put the event on the bus's queue
       if !(natList q).contains e.toNat! then
